@@ -13,6 +13,7 @@ import (
 	"os/exec"
 	"runtime"
 	"runtime/metrics"
+	"strconv"
 	"strings"
 	"sync"
 	"sync/atomic"
@@ -732,7 +733,7 @@ func c08Corpus() []geom.Geometry {
 
 func c08Main(r *engine.Run) {
 	r.Level = "fault_enumeration"
-	r.Rule = "corpus of valid encodings (WKB little/big endian, TWKB with header subsets, WKT, GeoJSON, Feature, FeatureCollection of ~70 geometries covering 7 types × 4 coordinate types × empty/1/2 members/nested) × fault operators: every truncation, every single-byte substitution (all 256 values at order/type/count/header positions, boundary values elsewhere), every 4-byte count := {0,1,2^31-1,2^31,2^32-1,...} in both byte orders, varints 2^k / 2^64-1 / over-long spliced at every position, every token deleted / duplicated / replaced by each vocabulary token, every prefix; plus all byte strings of length ≤ 2 and all strings of length 3..L over {00,01,02,07,10,ff}. Each case runs in a sacrificial process (RLIMIT_AS 4 GiB) through every entry point of its format; oracle: no panic, no process death, TotalAlloc ≤ 1 MiB + 512·len, returned geometries valid and re-encodable. non-trivial = distinct mutated inputs that some entry point still accepts; outcomes = distinct (format, per-entry-point outcome) tuples"
+	r.Rule = "corpus of valid encodings (WKB little/big endian, TWKB with header subsets, WKT, GeoJSON, Feature, FeatureCollection of ~70 geometries covering 7 types × 4 coordinate types × empty/1/2 members/nested) × fault operators: every truncation, every single-byte substitution (all 256 values at order/type/count/header positions, boundary values elsewhere), every 4-byte count := {0,1,2^31-1,2^31,2^32-1,...} in both byte orders, varints 2^k / 2^64-1 / over-long spliced at every position, every token deleted / duplicated / replaced by each vocabulary token, every prefix; WKT templates with every control point scaled by every value of {1,3e-200,3e200,1e308} (magnitude mixtures); plus all byte strings of length ≤ 2 and all strings of length 3..L over {00,01,02,07,10,ff}. Each case runs in a sacrificial process (RLIMIT_AS 4 GiB) through every entry point of its format; oracle: no panic, no process death, TotalAlloc ≤ 1 MiB + 512·len, returned geometries valid and re-encodable. non-trivial = distinct mutated inputs that some entry point still accepts; outcomes = distinct (format, per-entry-point outcome) tuples"
 	corpus := c08Corpus()
 	r.States.Add(int64(len(corpus)))
 	var cases []faultCase
@@ -831,6 +832,8 @@ func c08Main(r *engine.Run) {
 		}
 	}
 	r.Extra["grammar_geojson_members"] = len(members)
+	nmix := magnitudeMixtures(r.Thorough(), &cases)
+	r.Extra["magnitude_mixture_cases"] = nmix
 	shortInputs(fmtWKB, maxShort, &cases)
 	shortInputs(fmtTWKB, maxShort, &cases)
 	// de-duplicate identical (format, data)
@@ -852,6 +855,81 @@ func c08Main(r *engine.Run) {
 	if runFaults(r, cases) {
 		r.Bound(fmt.Sprintf("%d distinct fault cases over a corpus of %d geometries (token edits ≤ %d, arbitrary strings up to length %d)", len(cases), len(corpus), edits, maxShort))
 	}
+}
+
+// magnitudeMixtures: WKT of small lineal and areal templates in which every control point's X
+// (or Y, or both) is multiplied by each scale of {1, 3e-200, 3e200, 1e308} independently — every
+// assignment. Finite but extreme ordinates make cross products and crossing points overflow to
+// Inf/NaN inside validation; decoders must still answer with an error or a geometry.
+func magnitudeMixtures(thorough bool, out *[]faultCase) int {
+	type tm struct {
+		kind  string
+		parts [][]int
+		pts   [][2]float64
+	}
+	tmpls := []tm{
+		{"MULTIPOLYGON", [][]int{{0, 1, 2}, {3, 4, 5}}, [][2]float64{{1, 1}, {1, 0}, {-1, 0.5}, {1, 3}, {0.5, 0.5}, {1, 3}}},
+		{"MULTIPOLYGON", [][]int{{0, 1, 2}, {3, 4, 5}}, [][2]float64{{0, 0}, {4, 0}, {0, 4}, {4, 4}, {4, 0}, {0, 4}}},
+		{"LINESTRING", [][]int{{0, 1, 2, 3, 4}}, [][2]float64{{0, 0}, {2, 1}, {1, 3}, {3, 2}, {4, 4}}},
+		{"MULTILINESTRING", [][]int{{0, 1, 2}, {3, 4, 5}}, [][2]float64{{0, 0}, {2, 1}, {1, 3}, {3, 0}, {2, 2}, {0, 3}}},
+		{"POLYGON", [][]int{{0, 1, 2, 3, 4}}, [][2]float64{{0, 0}, {4, 0}, {5, 3}, {2, 5}, {-1, 3}}},
+	}
+	if thorough {
+		tmpls = append(tmpls,
+			tm{"POLYGON", [][]int{{0, 1, 2, 3}, {4, 5, 6}}, [][2]float64{{0, 0}, {9, 0}, {9, 9}, {0, 9}, {2, 2}, {2, 5}, {5, 2}}},
+			tm{"POLYGON", [][]int{{0, 1, 2, 3}, {4, 5, 6}}, [][2]float64{{0, 0}, {8, 0}, {8, 8}, {0, 8}, {0, 0}, {4, 1}, {1, 4}}},
+			tm{"MULTIPOLYGON", [][]int{{0, 1, 2}, {3, 4, 5}, {6, 7, 8}}, [][2]float64{{0, 0}, {2, 0}, {1, 2}, {3, 0}, {5, 0}, {4, 2}, {1, 3}, {4, 3}, {2, 5}}},
+		)
+	}
+	scales := []float64{1, 3e-200, 3e200, 1e308}
+	n := 0
+	for _, t := range tmpls {
+		np := len(t.pts)
+		total := 1
+		for i := 0; i < np; i++ {
+			total *= len(scales)
+		}
+		for axis := 0; axis < 3; axis++ {
+			for code := 0; code < total; code++ {
+				c := code
+				P := make([][2]float64, np)
+				for i := range P {
+					sc := scales[c%len(scales)]
+					c /= len(scales)
+					P[i] = t.pts[i]
+					if axis != 1 {
+						P[i][0] *= sc
+					}
+					if axis != 0 {
+						P[i][1] *= sc
+					}
+				}
+				var parts []string
+				for _, part := range t.parts {
+					var cs []string
+					for _, i := range part {
+						cs = append(cs, strconv.FormatFloat(P[i][0], 'g', -1, 64)+" "+strconv.FormatFloat(P[i][1], 'g', -1, 64))
+					}
+					if t.kind == "POLYGON" || t.kind == "MULTIPOLYGON" {
+						cs = append(cs, cs[0])
+					}
+					parts = append(parts, "("+strings.Join(cs, ",")+")")
+				}
+				var w string
+				switch t.kind {
+				case "LINESTRING":
+					w = "LINESTRING" + parts[0]
+				case "MULTIPOLYGON":
+					w = "MULTIPOLYGON((" + strings.Join(parts, "),(") + "))"
+				default:
+					w = t.kind + "(" + strings.Join(parts, ",") + ")"
+				}
+				*out = append(*out, faultCase{fmtWKT, []byte(w), "magnitude mixture"})
+				n++
+			}
+		}
+	}
+	return n
 }
 
 func c08Replay(r *engine.Run, sub string, raw json.RawMessage) error {
